@@ -188,7 +188,19 @@ type ConstMap struct {
 	Text  string
 }
 
+// RouteTable: `routetable [Cxx] register L1, L2 public F1, F2 guarded G1, G2 wrappers W1 custom R1`:
+// every handler value handed to one of the registering functions anywhere in the package is a
+// `public` handler, a `guarded` one (a function that must itself be under contract for the
+// property), such a handler passed through a listed wrapper, or — inside a listed `custom`
+// registrar only — the registrar's own parameter. Decided syntactically over the package.
+type RouteTable struct {
+	Props                                        []string
+	Register, Public, Guarded, Wrappers, Custom []string
+	Text                                         string
+}
+
 type SpecFile struct {
+	Routes  []*RouteTable
 	Path    string
 	Pures   []*PureFunc
 	Ghosts  []*GhostDecl
@@ -337,7 +349,7 @@ var clauseKeywords = map[string]bool{
 	"requires": true, "ensures": true, "establishes": true, "modifies": true, "loop": true, "at": true,
 	"property": true, "nopanic": true, "reveal": true, "pure": true, "func": true,
 	"ghost": true, "lemma": true, "axiom": true, "extern": true, "fresh": true,
-	"maypanic": true, "regex": true, "globalfact": true, "constmap": true, "noblock": true, "objinvariant": true, "entryfact": true, "encapsulated": true, "ownedwrites": true, "inline": true, "boundary": true, "immutable": true, "bounded": true, "opaque": true, "pathflag": true, "pathvar": true,
+	"maypanic": true, "regex": true, "globalfact": true, "constmap": true, "noblock": true, "objinvariant": true, "entryfact": true, "encapsulated": true, "ownedwrites": true, "inline": true, "boundary": true, "immutable": true, "bounded": true, "opaque": true, "pathflag": true, "pathvar": true, "routetable": true, "register": true, "public": true, "guarded": true, "wrappers": true, "custom": true,
 }
 
 func (p *parser) parseExpr(minPrec int) (Expr, error) {
@@ -789,6 +801,41 @@ func (p *parser) parseFile() (*SpecFile, error) {
 			}
 			cm.Text = p.textSince(start)
 			sf.CMaps = append(sf.CMaps, cm)
+		case "routetable":
+			p.next()
+			start := p.peek().pos
+			rt := &RouteTable{}
+			if p.isOp("[") {
+				rt.Props, _ = p.parseClauseTag()
+			}
+			for p.isID("register") || p.isID("public") || p.isID("guarded") || p.isID("wrappers") || p.isID("custom") {
+				kind := p.next().s
+				for {
+					l, err := p.parseFuncLabel()
+					if err != nil {
+						return nil, err
+					}
+					switch kind {
+					case "register":
+						rt.Register = append(rt.Register, l)
+					case "public":
+						rt.Public = append(rt.Public, l)
+					case "guarded":
+						rt.Guarded = append(rt.Guarded, l)
+					case "wrappers":
+						rt.Wrappers = append(rt.Wrappers, l)
+					case "custom":
+						rt.Custom = append(rt.Custom, l)
+					}
+					if p.isOp(",") {
+						p.next()
+						continue
+					}
+					break
+				}
+			}
+			rt.Text = p.textSince(start)
+			sf.Routes = append(sf.Routes, rt)
 		case "globalfact":
 			p.next()
 			pk := p.next().s
